@@ -199,6 +199,39 @@ pub fn run(rep: &Report) -> i32 {
             uninspected_by_construction: true,
         });
     }
+    // the same polymorphic expression twice in one environment at two different types that nothing in the program pins
+    // down (`(None, None)` at `(Option<u8>, Option<u16>)` ...), next to a fully inspected witness: nodes that differ
+    // only in such a type must not upset the sharing of the encoded program
+    {
+        let twins: [(&str, &str); 10] = [
+            ("none-none", "    let p: (Option<u8>, Option<u16>) = (None, None);\n"),
+            ("left-left", "    let p: (Either<u8, u16>, Either<u8, u32>) = (Left(1), Left(1));\n"),
+            ("right-right", "    let p: (Either<u16, u8>, Either<u32, u8>) = (Right(1), Right(1));\n"),
+            ("empty-lists", "    let p: (List<u8, 4>, List<u16, 4>) = (list![], list![]);\n"),
+            ("empty-arrays", "    let p: ([u8; 0], [u16; 0]) = ([], []);\n"),
+            ("none-none-none", "    let p: (Option<u8>, Option<u16>, Option<u32>) = (None, None, None);\n"),
+            ("is-none-twice", "    let p: (bool, bool) = (is_none::<u8>(None), is_none::<u16>(None));\n    let (x, y): (bool, bool) = p;\n    assert!(x);\n"),
+            ("none-none-then-is-none", "    let p: (Option<u8>, Option<u16>) = (None, None);\n    let (x, y): (Option<u8>, Option<u16>) = p;\n    assert!(is_none::<u8>(x));\n    assert!(is_none::<u16>(y));\n"),
+            ("array-of-nones-beside-none", "    let p: ([Option<u8>; 2], Option<u16>) = ([None, None], None);\n"),
+            ("nested", "    let p: (Option<Option<u8>>, Option<Option<u16>>) = (Some(None), Some(None));\n"),
+        ];
+        for (label, body) in twins {
+            for (wt, inspect) in [("u8", "    assert!(jet::eq_8(w, w));\n"), ("u16", "    assert!(jet::eq_16(w, w));\n")] {
+                for before in [true, false] {
+                    let wpart = format!("    let w: {wt} = witness::W0;\n{inspect}");
+                    let text = if before { format!("fn main() {{\n{wpart}{body}}}\n") } else { format!("fn main() {{\n{body}{wpart}}}\n") };
+                    progs.push(FlowProgram { text, witnesses: vec![("W0".into(), if wt == "u8" { Ty::U(8) } else { Ty::U(16) })], label: format!("twins {label} ({wt} witness {})", if before { "before" } else { "after" }), uninspected_by_construction: false });
+                }
+            }
+        }
+        // the same through call arguments
+        for (label, f, call) in [
+            ("call-none-none", "fn two(a: Option<u8>, b: Option<u16>) -> bool {\n    true\n}\n", "    assert!(two(None, None));\n"),
+            ("call-left-left", "fn two(a: Either<u8, u16>, b: Either<u8, u32>) -> bool {\n    true\n}\n", "    assert!(two(Left(1), Left(1)));\n"),
+        ] {
+            progs.push(FlowProgram { text: format!("{f}fn main() {{\n    let w: u8 = witness::W0;\n    assert!(jet::eq_8(w, w));\n{call}}}\n"), witnesses: vec![("W0".into(), Ty::U(8))], label: format!("twins {label}"), uninspected_by_construction: false });
+        }
+    }
     rep.set("bounds", json!({"programs": progs.len(), "flows": FLOWS, "types": wide_types(quick).iter().map(|t| t.render()).collect::<Vec<_>>(), "witnesses_per_program": "1..3", "maps": "complete product of per-witness value alphabets (<= 4 values each) + each name missing + empty map"}));
     par_for(&progs, rep, 8, |i, p| {
         drive::DUMMY.with(|env| check_flow(rep, p, i, env));
